@@ -361,11 +361,22 @@ def has_huge_int(x):
     return False
 
 
+def has_null_id(x):
+    """An `id` member given as null somewhere: fix 6e9bcfe (2026-09-29 11:08) makes a 2.1 observable treat it as "no id
+    given" (deterministic id) where the model, like the code before, keeps the uuid4 default -- not restated; such
+    cases are judged by the oracles only."""
+    if isinstance(x, dict):
+        return ("id" in x and x["id"] is None) or any(has_null_id(v) for v in x.values())
+    if isinstance(x, (list, tuple)):
+        return any(has_null_id(v) for v in x)
+    return False
+
+
 def run_model_cases(cases, variants, pats=None, tag="sch"):
     """One line per case; cases flagged "py" (not JSON-like) and cases carrying an integer beyond the range of a double
     (canonicalisation for the deterministic id is not restated here) are not evaluated: UNMODELLED."""
     pats = pats if pats is not None else pattern_lists(cases)
-    idx = [i for i, c in enumerate(cases) if not c.get("py") and not has_huge_int(c.get("data"))]
+    idx = [i for i, c in enumerate(cases) if not c.get("py") and not has_huge_int(c.get("data")) and not has_null_id(c.get("data"))]
     lines = sharded_eval(tag, header(variants, pats), [model_term(cases[i]) for i in idx])
     out = ["UNMODELLED"] * len(cases)
     for i, l in zip(idx, lines):
